@@ -106,7 +106,10 @@ BuildFormat(calls) == ApplyCalls(NewFormat, calls, 1)
 
 (* what a getter of rebuild(build_unchecked(f)) must show: an unset exponent base / radix    *)
 (* reads back as the mantissa radix; everything else is unchanged                            *)
-RebuildView(f) == [f EXCEPT !.exponent_base = ExponentBase(f), !.exponent_radix = ExponentRadix(f)]
+RebuildView(f) == [f EXCEPT !.exponent_base = ExponentBase(f), !.exponent_radix = ExponentRadix(f),
+                            !.digit_separator = IF \E i \in 19..31 : f[FlagNames[i]] THEN f.digit_separator ELSE 0]
+(* what build_unchecked keeps: a digit separator character only matters with some separator flag *)
+PackedView(f) == [f EXCEPT !.digit_separator = IF \E i \in 19..31 : f[FlagNames[i]] THEN f.digit_separator ELSE 0]
 
 (***************************************************************************)
 (* Helpers used by the grammar.                                             *)
@@ -147,8 +150,9 @@ OptControlOk(f, c) == c = 0 \/ ControlOk(f, c)
 
 ConsecutiveOk(fl) == fl.C => (fl.I \/ fl.L \/ fl.T)
 
-FormatValidity(f, feat) ==
-    LET sep == f.digit_separator  pre == f.base_prefix  suf == f.base_suffix
+FormatValidity(g, feat) ==
+    LET f == PackedView(g)
+        sep == f.digit_separator  pre == f.base_prefix  suf == f.base_suffix
         gap == CtlGap(sep) \/ CtlGap(pre) \/ CtlGap(suf)
         radixOk == ValidRadixFor(Radix(f), feat) /\ ValidRadixFor(ExponentBase(f), feat) /\ ValidRadixFor(ExponentRadix(f), feat)
         sepOk == IF feat.format THEN OptControlOk(f, sep) ELSE sep = 0
